@@ -432,6 +432,19 @@ pub(crate) fn image_model_min(src_a: &[u8; 3], src_b: &[u8; 2], junk: &[u8; 3]) 
     }
 }
 
+/// MODEL of Cfb::get_stream for the closure harnesses of kani/vbaprojv.rs: the stream of the FIRST directory entry with that name =
+/// `len` bytes of the mini stream from mini sector `start` (the images store every stream in consecutive mini sectors), else
+/// StreamNotFound.  (The real get_stream / get_chain / get are covered by the Verus unit `cfb`.)
+pub(crate) fn get_stream_model<R: Read>(cfb: &mut Cfb, name: &str, _r: &mut R) -> Result<Vec<u8>, CfbError> {
+    for d in cfb.directories.iter() {
+        if &*d.name == name {
+            let s = d.start as usize * 64;
+            return Ok(cfb.mini_sectors.data[s..s + d.len].to_vec());
+        }
+    }
+    Err(CfbError::StreamNotFound(String::new()))
+}
+
 /// run the REAL from_cfb and compare with the format's meaning
 fn check_project(mut cfb: Cfb, src_a: &[u8], src_b: &[u8]) {
     let mut r: &[u8] = &[];
